@@ -615,6 +615,21 @@ impl<'a> Socket<'a> {
 
                 let dst_addr = servers[pq.server_idx];
                 let src_addr = match cx.get_source_address(&dst_addr) {
+                    // Source address selection falls back to the loopback address when the
+                    // interface has no address of the destination's family; such a query
+                    // cannot be put on the wire, so go on with the next server.
+                    #[cfg(feature = "proto-ipv6")]
+                    Some(IpAddress::Ipv6(src_addr))
+                        if src_addr.is_loopback()
+                            && !matches!(dst_addr, IpAddress::Ipv6(d) if d.is_loopback()) =>
+                    {
+                        net_trace!("no usable source address for destination {}", dst_addr);
+                        pq.server_idx += 1;
+                        pq.timeout_at = None;
+                        pq.retransmit_at = Instant::ZERO;
+                        pq.delay = RETRANSMIT_DELAY;
+                        continue;
+                    }
                     Some(src_addr) => src_addr,
                     None => {
                         net_trace!("no source address for destination {}", dst_addr);
